@@ -13,13 +13,13 @@ B1 ==
   << DirectiveD("tag", <<ArgDD("v", I, IntV(1)), ArgD("s", S)>>, TagLocs),
      DirectiveD("meta", <<WD(ArgD("a", I), <<Tag>>)>>, <<"OBJECT">>),
      WD(ScalarD("Date"), <<Tag>>),
-     WD(InterfaceD("N", <<FieldD("name", S, <<ArgD("pre", S)>>)>>), <<Tag>>),
+     WD(InterfaceD("N", <<FieldD("name", S, <<ArgD("pre", S)>>), FieldD("peer", Named("N"), <<>>)>>), <<Tag>>),
      ObjectD("Query", <<>>, << FieldD("a", Named("A"), <<>>),
                                FieldD("items", NonNull(ListOf(NonNull(Named("A")))), <<ArgDD("first", I, IntV(10)), ArgD("f", Named("In"))>>),
                                FieldD("u", Named("U"), <<>>), FieldD("e", Named("E"), <<>>), FieldD("d", Named("Date"), <<>>) >>),
      WD(ObjectD("A", <<"N">>, << WD(FieldD("name", S, <<ArgD("pre", S), WD(ArgD("opt", I), <<Tag>>)>>), <<Tag>>),
                                  FieldD("n", I, <<>>), FieldD("peer", Named("B"), <<>>) >>), <<Tag2, DU("meta", <<AV("a", IntV(5))>>)>>),
-     ObjectD("B", <<"N">>, << FieldD("name", NonNull(S), <<ArgD("pre", S)>>), FieldD("k", ListOf(ListOf(I)), <<>>) >>),
+     ObjectD("B", <<"N">>, << FieldD("name", NonNull(S), <<ArgD("pre", S)>>), FieldD("k", ListOf(ListOf(I)), <<>>), FieldD("peer", NonNull(Named("N")), <<>>) >>),
      WD(UnionD("U", <<"A", "B">>), <<Tag>>),
      WD(EnumD("E", <<WD(EV("P"), <<Tag>>), EV("Q")>>), <<Tag>>),
      WD(InputD("In", << WD(ArgDD("f", I, IntV(3)), <<Tag>>), ArgDD("e", Named("E"), V("enum", "P")),
